@@ -143,7 +143,10 @@ class Builder:
         if k == 'id':
             return core.IdentityOperator(build_struct(t['s']))
         if k == 'hom':
-            return core.HomothetyOperator(jnp.asarray(p[0] / p[1]), build_struct(t['s']))
+            s = build_struct(t['s'])
+            # parameter no wider than the data (C05's quantifier): a weakly typed python scalar becomes a
+            # strong float64 inside lineax's jitted solve when x64 is on
+            return core.HomothetyOperator(jnp.asarray(p[0] / p[1], dtype=jax.tree.leaves(s)[0].dtype), s)
         if k == 'dense':
             r, c = p[0], p[1]
             s = build_struct(t['s'])
